@@ -83,9 +83,9 @@ Proof. intros k v Hk Hv. apply save_line_no_newline; [exact Hk|]. apply in_domai
 (* ------------------------------------------------------------------ SaveGlobals *)
 (* the file is exactly one complete line per kept binding, in key order; the count is the number of lines *)
 Theorem C14_save_is_sorted_and_skips : forall maxlen extras env,
-  existsb (panics maxlen extras) (sort_keys env) = false ->
+  existsb (panics env maxlen extras) (sort_keys env) = false ->
   save_globals maxlen extras env =
-    Some (file_of (kept_lines maxlen extras (sort_keys env)), List.length (kept_lines maxlen extras (sort_keys env)))
+    Some (file_of (kept_lines env maxlen extras (sort_keys env)), List.length (kept_lines env maxlen extras (sort_keys env)))
   /\ Permutation env (sort_keys env)
   /\ StronglySorted key_le (sort_keys env).
 Proof.
@@ -97,16 +97,16 @@ Qed.
 
 (* the value-length limit skips whole bindings: what is written under a limit is written identically without it,
    and a skipped binding is one whose value text is longer than the limit *)
-Theorem C14_limit_skips_never_truncates : forall maxlen extras k v,
-  (forall l, save_one maxlen extras k v = LLine l -> save_one 0 extras k v = LLine l) /\
-  (save_one maxlen extras k v = LSkipLong ->
-     exists val, save_one 0 extras k v = LLine (k ++ [61%N] ++ val) /\ (0 < maxlen < Z.of_nat (List.length val))%Z).
+Theorem C14_limit_skips_never_truncates : forall store maxlen extras k v,
+  (forall l, save_one store maxlen extras k v = LLine l -> save_one store 0 extras k v = LLine l) /\
+  (save_one store maxlen extras k v = LSkipLong ->
+     exists val, save_one store 0 extras k v = LLine (k ++ [61%N] ++ val) /\ (0 < maxlen < Z.of_nat (List.length val))%Z).
 Proof.
   intros. split; [intros l; apply limit_writes_full_line|apply limit_skips_only_long].
 Qed.
 
-Theorem C14_limited_file_is_sublist_of_lines : forall maxlen extras bs,
-  sublist (kept_lines maxlen extras bs) (kept_lines 0 extras bs).
+Theorem C14_limited_file_is_sublist_of_lines : forall store maxlen extras bs,
+  sublist (kept_lines store maxlen extras bs) (kept_lines store 0 extras bs).
 Proof. exact kept_lines_limit_sublist. Qed.
 
 (* splitting the file at newlines gives back exactly the kept lines (each binding occupies exactly one line) *)
@@ -123,8 +123,9 @@ Theorem C14_refuted_function_bodies : function_finding_cases = true.
 Proof. exact function_finding_cases_ok. Qed.
 
 (* a small environment: key order, the constant PI (an extra identifier) skipped, TEN (not an extra) kept, the alias
-   h of the named function g written as h=func g.., and under limit 8 the two long values skipped as a whole while
-   the named function is written whatever its length *)
+   h of the named function g written as h=func g.. (g still is that function), the alias k of a function f that was
+   redefined since and the alias d of a deleted function written in lambda form (fix 0adeef3), and under limit 8 the
+   long values skipped as a whole while named functions are written whatever their length *)
 Theorem C14_save_globals_example : save_globals_small.
 Proof. exact save_globals_small_ok. Qed.
 
